@@ -108,7 +108,7 @@ def correspondence_nl(ctx, n):
     mod = NL.write_module(f'c11_{ctx["seed"]}_{ctx["tier"]}', specs)
     tol, maxit, itol, imaxit = 2.0 ** -27, 12, 2.0 ** -30, 10
     hdr = NL.HEADER.replace('Model.NLSolve.', 'Model.NLSolve Model.NLNested Proofs.NLNestedProofs.')
-    exprs, meta, dis = [], [], []
+    exprs, meta, dis, ssexprs, sscases = [], [], [], [], []
     stats = dict(built=0, steady_state_failed=0, converged=0, raised_no_convergence=0, outer_iterations={}, steps_replayed=0, inner_iteration_mismatch=0, model_none=0, no_outer_unknowns=0, two_inner_blocks=0)
     for mi, spec in enumerate(specs):
         sv = spec['solved']
@@ -137,6 +137,12 @@ def correspondence_nl(ctx, n):
         options = {model.name: dict(tol=tol, maxit=maxit, verbose=False), sb.name: dict(tol=itol, maxit=imaxit, verbose=False)}
         order = [(b.name, [ib.name.split('_', 1)[1] for ib in innerc.blocks]) if b.name == sb.name else b.name.split('_', 1)[1] for b in model.blocks]
         prog = NL.coq_nprog(spec, order)
+        # steady state: the nested model's table must be the FLAT model evaluated at the calibration plus the value the solved block found for its unknown (theorem nested_ss_equals_flat)
+        bmap_ = {b['name']: b for b in spec['blocks']}
+        flat_order = [x for it in order for x in (it[1] if isinstance(it, tuple) else [it])]
+        cal_tbl = [float(spec['calib'].get(k, ss[f'x{k}'] if k in sv['U'] else 0.0)) for k in range(spec['N'])]
+        ssexprs.append(f'run_dag {spec["N"]} 1%Z {C.coq_list(cal_tbl, NL.qf)} {NL.coq_prog([bmap_[nm_] for nm_ in flat_order])} [] []')
+        sscases.append((case, {k: float(ss[f'x{k}']) for k in range(spec['N'])}))
         case.update(listing=[str(o) for o in order], distinct_initial_steady_state=use_initial)
         fixed = (f'{"true" if use_initial else "false"} {imaxit} {NL.qf(itol)} {N} {T}%Z {NL.coq_tbl(ss, N)} {NL.coq_tbl(ss0 if use_initial else ss, N)} {prog}')
         kw = {} if ss0 is None else dict(ss_initial=ss0)
@@ -179,6 +185,17 @@ def correspondence_nl(ctx, n):
                          f'{NL.coq_devs([(int(z[1:]), p) for z, p in shocks.items()])} {NL.qf(tol)} {C.coq_list(Uk, lambda p: C.coq_list(p, NL.qf))} {C.coq_list(outs, str)})')
             meta.append((case, k, trace, outs, U, Tg, ret, outcome))
     vals, logs = C.eval_in_coq('C11', hdr, exprs, chunk=2, tag='nnl')
+    ssvals, sslogs = C.eval_in_coq('C11', hdr, ssexprs, chunk=max(1, len(ssexprs) // 8 + 1), tag='nss')
+    logs = logs + sslogs
+    for (case_, want), vm_ in zip(sscases, ssvals):
+        if vm_ is None:
+            continue
+        wf_, tbl_ = vm_[0], vm_[1]
+        got_ = [float(NL.frac(x)) for x in tbl_]
+        badk = [k for k in want if abs(got_[k] - want[k]) > 1e-11 * max(1.0, abs(want[k]))]
+        stats['steady_states_replayed'] = stats.get('steady_states_replayed', 0) + 1
+        if not wf_ or badk:
+            dis.append(dict(what='steady state of a model containing a solved block is not the flat model evaluated at the calibration and the unknown value the solved block reports', case=dict(case_, differing=[f'x{k}' for k in badk][:6], well_formed=bool(wf_))))
     F = NL.frac
     for (case, k, trace, outs, U, Tg, ret, outcome), vm in zip(meta, vals):
         if vm is None:
@@ -221,7 +238,7 @@ def correspondence_nl(ctx, n):
             dis.append(dict(what='nonlinear path of a model containing a solved block differs from the executable nested model', case=dict(case, iteration=k, differing=bad[:4])))
     for l in logs:
         dis.append(dict(what='coq evaluation failed', log=l))
-    return dict(evaluations=len(exprs), disagreements=dis, stats=stats, specs=specs)
+    return dict(evaluations=len(exprs) + len(ssexprs), disagreements=dis, stats=stats, specs=specs)
 
 
 def check(rng, override=None):
